@@ -307,7 +307,12 @@ func (fc *FuncCtx) execCall0(fr *Frame, st *State, site ssa.Instruction, c *ssa.
 		fc.bumpAlloc(st)
 		return mkResult(nil)
 	}
+	short0, full0 := short, full
 	short, full = fn.Name(), fn.String()
+	if short0 != short && strings.HasPrefix(full0, "$dynamic.") {
+		// a function value called through a variable or field: clauses may name the variable
+		fc.atCallClauses(fr, st, site, short0, full0, extra, pos)
+	}
 	// intrinsics
 	if fc.isIntrinsic(fn) {
 		fc.atCallClauses(fr, st, site, short, full, extra, pos)
@@ -464,6 +469,9 @@ func (fc *FuncCtx) callWithContract(fr *Frame, st *State, con *Contract, fn *ssa
 			if p == "reachable" {
 				// the type-directed write set of this call: everything reachable from its arguments
 				fc.havocExternal(st, c)
+				continue
+			}
+			if p == "nothing" {
 				continue
 			}
 			pats = append(pats, p)
